@@ -53,9 +53,23 @@ def refit(o, *a, **k):
         o.fit(*a, **k)
 
 
-def both(fn, df, rep, key, what, fails, ctx, payload):
-    """fn(frame, weights_or_None) -> vector of point estimates"""
+def both(fn, df, rep, key, what, fails, ctx, payload, gee_may_fail=False):
+    """fn(frame, weights_or_None) -> vector of point estimates.  gee_may_fail: the comparison involves identity- / log-link
+    binomial GEE fits with a continuous covariate, which statsmodels may declare infeasible on either frame (mean outside
+    (0,1) during IRLS): such a pair is counted, not compared -- the property is about fits that exist"""
     FITS[0] += 1
+    if gee_may_fail:
+        try:
+            w = fn(df, WL[0])
+            r = fn(rep, None)
+        except ValueError as e:
+            if 'estimation infeasible' in str(e) or 'invalid value' in str(e):
+                ctx.count('MSM with covariate: GEE infeasible on one of the two frames (not compared)')
+                return None
+            raise
+        ctx.programs += 1
+        same(fails, ctx, key, what, w, r, payload, len(df))
+        return w, r
     try:
         w = fn(df, WL[0])
     except Exception as e:   # noqa
@@ -121,7 +135,8 @@ def estimator_part(ctx, fails):
                     return list(ip.average_treatment_effect['ATE'])
                 if std == 'population' or ctx.rng.random() < 0.5:
                     both(f2, df, rep, 'IPTW.msm-with-covariate.%s.%s' % ('stabilized' if stab else 'unstabilized', std),
-                         'IPTW(standardize=%s, stabilized=%s) with MSM A + %s' % (std, stab, meta['covs'][0]), fails, ctx, payload)
+                         'IPTW(standardize=%s, stabilized=%s) with MSM A + %s' % (std, stab, meta['covs'][0]), fails, ctx, payload,
+                         gee_may_fail=(otype == 'binary'))
         if otype != 'poisson':
             for p in (0.3, 1.0):
                 def f(frame, w, p=p):
